@@ -131,6 +131,8 @@ class Env:
 class Interp:
     """Generic control flow; subclasses provide the hooks."""
 
+    loop_cap = 70
+
     def __init__(self):
         self.trace = []   # branch decisions taken: list of strings (the path condition)
 
@@ -406,6 +408,43 @@ class Interp:
                 if name == "ok":
                     return Some(recv.v) if recv.ok else NONE
             return self.method(recv, name, e["turbofish"], args, e)
+        if t == "While":
+            n = 0
+            while True:
+                scope = env.child()
+                if not self.cond(e["cond"], scope):
+                    break
+                n += 1
+                if n > self.loop_cap:
+                    raise Unanalysable(f"loop exceeds {self.loop_cap} iterations under this abstract input")
+                try:
+                    self.exec_block(e["body"], scope)
+                except BreakEx:
+                    break
+                except ContinueEx:
+                    continue
+            return UNIT
+        if t == "ForLoop":
+            it = self.eval(e["expr"], env)
+            if not isinstance(it, list):
+                raise Unanalysable("for loop over a value the rule does not model")
+            for v in it:
+                scope = env.child()
+                if not self.match(e["pat"], v, scope):
+                    raise Unanalysable("for pattern")
+                try:
+                    self.exec_block(e["body"], scope)
+                except BreakEx:
+                    break
+                except ContinueEx:
+                    continue
+            return UNIT
+        if t == "Binary" and e["op"] in ("+=", "-=", "*=", "/=", "&=", "|=", "^=", "<<=", ">>=", "%="):
+            cur = self.eval(e["left"], env)
+            r = self.eval(e["right"], env)
+            v = self.binary(e["op"][:-1], cur, r, e)
+            self.assign_place(e["left"], v, env, e)
+            return UNIT
         if t == "Binary":
             op = e["op"]
             if op == "&&":
@@ -474,6 +513,8 @@ class Interp:
                 return l & r
             if op == "|":
                 return l | r
+            if op == "^":
+                return l ^ r
             if op == "<<":
                 return l << r
             if op == ">>":
